@@ -430,8 +430,6 @@ impl QueryRouter {
 
     /// Determines if a query is a mutation or not.
     fn is_mutation_query(q: &sqlparser::ast::Query) -> bool {
-        use sqlparser::ast::*;
-
         // Data-modifying CTE: WITH t AS (INSERT/UPDATE ... RETURNING ...) SELECT ...
         if let Some(with) = &q.with {
             if with
